@@ -314,31 +314,35 @@ structure InvFilters (α : Type) where
   g1b : List α
 
 /-- `DTCWTInverse.forward((low, highs))` for one channel: coarse-to-fine loop with the size
-fix-ups; `highs` finest first, `none` = absent level; `sizes6[j]` is what the module reads as
+fix-ups; `highs` finest first, `none` = absent (None, empty tensor or 0-d placeholder, all
+normalised to None by the module); `sizes6[j]` is what the module reads as
 `(s.shape[h_dim], s.shape[w_dim])` with `get_dimensions6`, `size5` what `inv_j1` reads with
 `get_dimensions5` -/
 def DTCWTInverse [Add α] [Sub α] [Neg α] [Mul α] [OfNat α 0] (s : α) (sym : Bool) (f : InvFilters α)
     (sizes6 : List (Nat × Nat)) (size5 : Nat × Nat)
     (low : Option (Img α)) (highs : List (Option (List (Cplx α)))) : Option (Img α) :=
+  if low.isNone ∧ highs.all (·.isNone) then none else   -- nothing to reconstruct from: ValueError
   match highs, sizes6 with
   | h0 :: rest, sz0 :: szs => do
     let lowJ ← (rest.zip szs).reverse.foldlM (fun (low : Option (Img α)) (hz : Option (List (Cplx α)) × (Nat × Nat)) =>
-        match hz.1 with
-        | some o => do
-          -- the module's own crop needs `low.shape`, so an absent low-pass raises here
-          let l ← low
+        match hz.1, low with
+        | some o, some l => do
           let l' := cropToHighs l hz.2.1 hz.2.2
           let y ← invJ2 s f.g0a f.g1a f.g0b f.g1b (some l') (some o)
           some (some y)
-        | none => do
-          let y ← invJ2 s f.g0a f.g1a f.g0b f.g1b low none
-          some (some y)) low
-    match h0 with
-    | some o => do
-      let l ← lowJ
+        | some o, none => do
+          let y ← invJ2 s f.g0a f.g1a f.g0b f.g1b none (some o)
+          some (some y)
+        | none, some l => do
+          let y ← invJ2 s f.g0a f.g1a f.g0b f.g1b (some l) none
+          some (some y)
+        | none, none => some none) low      -- nothing at this scale or coarser ones: `continue`
+    match h0, lowJ with
+    | some o, some l =>
       let l' := cropToHighs l sz0.1 sz0.2
       invJ1 s sym f.g0o f.g1o size5 (some l') (some o)
-    | none => invJ1 s sym f.g0o f.g1o size5 lowJ none
+    | some o, none => invJ1 s sym f.g0o f.g1o size5 none (some o)
+    | none, l => invJ1 s sym f.g0o f.g1o size5 l none
   | _, _ => none
 
 end WV
